@@ -160,8 +160,13 @@ def run_jobs(jobs, table):
         uri = d.register(make_target(table)(), "raiser")
         d.register(make_session_counter(), "counter")
         drv = memnet.ServerDriver(d)
+        # the same objects behind a Unix domain socket (whose clients have no address to speak of): every fifth job goes there
+        du = P.Daemon(unixsocket="verif-c07.sock")
+        uri_unix = du.register(make_target(table)(), "raiser")
+        du.register(make_session_counter(), "counter")
+        drvu = memnet.ServerDriver(du)
         proxies = {}
-        for job in jobs:
+        for jobno, job in enumerate(jobs):
             sc.set_budget(30000)
             ser, ck, spec, kind, carriable = job["ser"], job["ck"], job["spec"], job["kind"], job["carriable"]
             config.MAX_MESSAGE_SIZE = job.get("max_message_size", 1024 * 1024 * 1024)
@@ -170,9 +175,10 @@ def run_jobs(jobs, table):
                   "is_pyro_error": False, "names_class": False, "names_message": False, "next_ok": False, "tb_own": True,
                   "session_kept": True}
             try:
-                p = proxies.get(ser)
+                via_unix = jobno % 5 == 3
+                p = proxies.get((ser, via_unix))
                 if p is None or p._pyroConnection is None:
-                    p = proxies[ser] = P.Proxy(uri)
+                    p = proxies[(ser, via_unix)] = P.Proxy(uri_unix if via_unix else uri)
                     p._pyroSerializer = ser
                     p._pyroBind()
                 caught = None
@@ -240,7 +246,7 @@ def run_jobs(jobs, table):
                     tr["next_ok"] = False
             except S.Hang:
                 tr["outcome"] = "hang"
-                proxies.pop(ser, None)
+                proxies.pop((ser, jobno % 5 == 3), None)
             traces.append(tr)
         config.MAX_MESSAGE_SIZE = 1024 * 1024 * 1024
         for p in proxies.values():
@@ -250,6 +256,8 @@ def run_jobs(jobs, table):
                 pass
         drv.shutdown()
         d.close()
+        drvu.shutdown()
+        du.close()
     memnet.run(main, max_steps=100000000)
     if len(traces) < len(jobs):
         raise util.MachineryError("session ended early (%d of %d)" % (len(traces), len(jobs)))
